@@ -34,8 +34,8 @@ def run(chk):
     f = chk.facts
     rule_fsm(chk)
     rule_gate(chk)
-    rule_eval(chk)
-    rule_cond_eval(chk)
+    evaluated_cond = bool(rule_cond_eval(chk))
+    rule_eval(chk, shape=not evaluated_cond)
     import c08
     evaluated = c08.rule_defined_eval(chk, prefix="C11.defined/model")
     rule_defined(chk, shape=not evaluated)
@@ -449,7 +449,42 @@ REF_SPELL = {"||": "BooleanOr", "&&": "BooleanAnd", "==": "Equality", "!=": "Ine
 PAIRS = [(0, 0), (0, 1), (1, 0), (1, 1), (1, 2), (2, 1), (2, 2), (0, 2), (2, 0), (18446744073709551615, 1), (1, 18446744073709551615)]
 
 
-def rule_eval(chk):
+def rule_eval_tokens(chk, cp):
+    """the eight C spellings, cut into tokens by the lexer's own symbol table (c09.Lexer), read by condition_parser::parse
+    between the operands of five pairs: the truth values identify the operator"""
+    import c09
+    f = chk.facts
+    try:
+        lx = c09.Lexer(chk)
+    except c09.Missing as e:
+        chk.ob("C11.eval/lexer", False, "anchor-missing: %s" % e, PP)
+        return
+    LOC = I.Opaque("loc")
+    pt = lambda t: I.Enum("PreprocessToken", None, {"0": t, "1": LOC})
+    pairs = [(1, 2), (2, 1), (1, 1), (0, 0), (0, 1)]
+    sig = {op: tuple(REF_APPLY[op](a, b) != 0 for a, b in pairs) for op in REF_APPLY}
+    ip = I.Interp(f, max_depth=24)
+    ip.max_loop = 256
+    for spell, want in sorted(REF_SPELL.items()):
+        toks = lx.lex(spell + " ")
+        got = None
+        if toks:
+            mid = [pt(I.Enum("Token", k, {} if fb is None else {"0": I.Enum("FollowedBy", fb)})) for k, fb in toks]
+            res = []
+            for a, b in pairs:
+                try:
+                    r = ip.apply(cp, [[pt(I.Enum("Token", "LiteralInt", {"0": a}))] + mid + [pt(I.Enum("Token", "LiteralInt", {"0": b}))], LOC])
+                except I.Unknown as e:
+                    res.append("unreadable (%s)" % str(e)[:40])
+                    continue
+                res.append(r.fields["0"] if isinstance(r, I.Enum) and r.variant == "Ok" else "error")
+            hits = [op for op, sg in sig.items() if list(sg) == res]
+            got = hits[0] if hits else "%s on %s" % (res, pairs)
+        chk.ob("C11.eval/token/" + want, got == want, "%r -> %s -> %s" % (spell, [t for t, _ in toks or []], got) if got == want else
+               "the C operator %r lexes to %s and the condition parser reads it as %s" % (spell, toks, got), where(cp), sample={"spelling": spell, "tokens": [t for t, _ in toks or []], "op": got})
+
+
+def rule_eval(chk, shape=True):
     import c09
     f = chk.facts
     ip = I.Interp(f)
@@ -473,6 +508,13 @@ def rule_eval(chk):
                        where(ap), sample={"op": op, "left": l, "right": r, "value": got})
     # level chain from the entry
     entry = chk.anchor("C11.anchor/condition_parser::parse", f.fn("parse", PP, path_contains=CP + "::parse"), "condition_parser::parse")
+    if not shape:
+        # (level chain, `!`, leaves, parentheses and the fold order are decided by C11.eval/model; the rules below are its fallback)
+        for k in ("precedence", "not", "leaf/paren", "left-fold"):
+            chk.ob("C11.eval/" + k, True, "decided by C11.eval/model (condition_parser::parse read as a table)", where(entry) if entry else PP, trivial=True)
+        if entry:
+            rule_eval_tokens(chk, entry)
+        return
     fold = f.fn("parse_binary_operations", PP, path_contains=CP)
     comb = f.fn("combine_rights", PP, path_contains=CP)
     if not (entry and fold and comb):
